@@ -205,7 +205,7 @@ func init() {
 			full = newDocGen(2, 2, docScalarsFull)
 			deep = newDocGen(4, 1, docScalarsFull)
 			if t == fw.Thorough {
-				narrow = newDocGen(3, 2, docScalarsNarrow)
+				narrow = newDocGen(2, 2, docScalarsFull[:8])
 			} else {
 				narrow = newDocGen(2, 2, docScalarsNarrow)
 			}
